@@ -537,7 +537,7 @@ def opNewGroup (cfg : Cfg) (s : State) (parent : Option Id) : State × Out :=
   match parent with
   | none => (s1, .id n)
   | some p =>
-    if s1.isGroup p then
+    if s.isGroup p then      -- the parent argument exists before the call
       let r := opMoveToGroup cfg s1 n p
       if r.2.isError then r else (r.1, .id n)
     else (s1, .id n)
@@ -548,6 +548,38 @@ def moveAll (cfg : Cfg) (n : Id) : State → List Id → State × Out
     let r := opMoveToGroup cfg s x n
     if r.2.isError then r else moveAll cfg n r.1 xs
 
+/-- the parent `group_layers` uses: the argument, else the first layer's parent pointer -/
+def glParent (cfg : Cfg) (s : State) (parent : Option Id) (x0 : Id) : Option Id :=
+  match parent with
+  | some p => some p
+  | none => match s.parent x0 with
+    | some p => if s.cont p && (!cfg.listedParentOnly || decide (x0 ∈ s.children p)) then some p else none
+    | none => none
+
+/-- the validation made before anything is moved (09c40bc) -/
+def glPre (cfg : Cfg) (s : State) (par : Option Id) (xs : List Id) : Option (Err × List Id) :=
+  if cfg.groupLayersPrecheck then
+    if xs.any (fun x => !s.isLayer x) then some (.assertionError, [])
+    else match par with
+      | some p => if s.isGroup p then checkValid cfg s p xs else none
+      | none => none
+  else none
+
+/-- create the group, move the layers into it, append it to the parent -/
+def glBody (cfg : Cfg) (s : State) (par : Option Id) (xs : List Id) : State × Out :=
+  let n := s.next
+  let s1 := alloc s .group none BBox.zero
+  let r := moveAll cfg n s1 xs
+  if r.2.isError then r
+  else
+    match par with
+    | some p =>
+      if r.1.isGroup p then
+        let r2 := opAppend cfg r.1 p n
+        if r2.2.isError then r2 else (r2.1, .id n)
+      else (r.1, .id n)
+    | none => (r.1, .id n)
+
 /-- `Group.group_layers(layers, name, parent, open_folder)` -/
 def opGroupLayers (cfg : Cfg) (s : State) (xs : List Id) (parent : Option Id) : State × Out :=
   match xs with
@@ -555,33 +587,9 @@ def opGroupLayers (cfg : Cfg) (s : State) (xs : List Id) (parent : Option Id) : 
   | x0 :: _ =>
     if !s.isLayer x0 then (s, .error .other)
     else
-      let par : Option Id := match parent with
-        | some p => some p
-        | none => match s.parent x0 with
-          | some p => if s.cont p && (!cfg.listedParentOnly || decide (x0 ∈ s.children p)) then some p else none
-          | none => none
-      let pre : Option (Err × List Id) :=
-        if cfg.groupLayersPrecheck then
-          if xs.any (fun x => !s.isLayer x) then some (.assertionError, [])
-          else match par with
-            | some p => if s.isGroup p then checkValid cfg s p xs else none
-            | none => none
-        else none
-      match pre with
+      match glPre cfg s (glParent cfg s parent x0) xs with
       | some r => refuse s r
-      | none =>
-        let n := s.next
-        let s1 := alloc s .group none BBox.zero
-        let r := moveAll cfg n s1 xs
-        if r.2.isError then r
-        else
-          match par with
-          | some p =>
-            if r.1.isGroup p then
-              let r2 := opAppend cfg r.1 p n
-              if r2.2.isError then r2 else (r2.1, .id n)
-            else (r.1, .id n)
-          | none => (r.1, .id n)
+      | none => glBody cfg s (glParent cfg s parent x0) xs
 
 /-! ### Attribute setters that touch the caches -/
 
@@ -625,6 +633,8 @@ inductive Op where
   | groupLayers (xs : List Id) (parent : Option Id)
   /-- `PixelLayer.frompil(image, psd, name, top, left)` -/
   | newLayer (psd : Option Id) (bx : BBox)
+  /-- `PSDImage.new(mode, (w, h))`: an empty document with canvas `bx = (0, 0, w, h)` -/
+  | newDoc (bx : BBox)
   | setVisible (x : Id) (v : Bool)
   | setLeft (x : Id) (v : Int)
   | setTop (x : Id) (v : Int)
@@ -665,6 +675,7 @@ def step (cfg : Cfg) (s : State) (op : Op) : State × Out :=
     | .newLayer p bx =>
       (alloc s .leaf (match p with | some d => if s.live d && s.kind d == .doc then some d else none | none => none) bx,
        .id s.next)
+    | .newDoc bx => (alloc s .doc none bx, .id s.next)
     | .setVisible x v => opSetVisible cfg s x v
     | .setLeft x v => opSetOffset cfg s x true v
     | .setTop x v => opSetOffset cfg s x false v
